@@ -43,11 +43,25 @@ fn event_value(id: usize, k: usize) -> u32 {
     if UNIFORM_EVENTS.with(|u| u.get()) { 7 } else { (id * 16 + k) as u32 }
 }
 
+thread_local! {
+    /// true: a task builds the future of its NEXT sleep before it awaits the current one (a sleep is measured from the
+    /// moment it is first awaited, not from the moment it is constructed)
+    static EAGER_SLEEPS: std::cell::Cell<bool> = std::cell::Cell::new(false);
+}
+
 async fn task(id: usize, script: Vec<Step>, log: Log) {
+    let eager = EAGER_SLEEPS.with(|e| e.get());
+    let mut prepared: Option<sc62015_core::async_driver::CycleSleep> = None;
     for (k, st) in script.iter().enumerate() {
         match *st {
             Step::Sleep(d, emit) => {
-                sleep_cycles(d).await;
+                let cur = prepared.take().unwrap_or_else(|| sleep_cycles(d));
+                if eager {
+                    if let Some(Step::Sleep(dn, _)) = script.get(k + 1) {
+                        prepared = Some(sleep_cycles(*dn));
+                    }
+                }
+                cur.await;
                 log.borrow_mut().push((id, current_cycle()));
                 if emit {
                     emit_event(DriverEvent::User(event_value(id, k)));
@@ -132,6 +146,14 @@ pub fn run_case(tasks: &[Vec<Step>], budgets: &[u64], c0: u64) -> RunOutcome {
     if a.violation.is_some() {
         return a;
     }
+    // sleeps constructed one step ahead of their await
+    EAGER_SLEEPS.with(|e| e.set(true));
+    let mut c = run_case_mode(tasks, budgets, c0);
+    EAGER_SLEEPS.with(|e| e.set(false));
+    if let Some((k, w)) = c.violation.take() {
+        c.violation = Some((format!("{k}/sleep-built-before-it-is-awaited"), format!("[each sleep future is built one step before it is awaited] {w}")));
+        return c;
+    }
     // the same case right after an unrelated driver used this thread: nothing of it may leak into a new driver
     preamble_driver();
     let mut b = run_case_mode(tasks, budgets, c0);
@@ -184,7 +206,7 @@ fn run_case_mode(tasks: &[Vec<Step>], budgets: &[u64], c0: u64) -> RunOutcome {
         guard += 1;
         let before = driver.clock();
         let len_before = log.borrow().len();
-        let r = driver.run_for(1 << 40);
+        let r = driver.run_for(u64::MAX);      // the host loop's "run until the next event" budget
         check(&driver, before, r, &log, &mut events, &mut viol);
         if r.event == DriverEvent::MaxCycles && log.borrow().len() == len_before {
             idle += 1;
